@@ -37,6 +37,16 @@ FileCases(fmts, sslModes) ==
                  s \in sslModes, p \in BOOLEAN, o \in FileOpts, h1 \in HL1, h2 \in HL2,
                  rest \in {<<>>} \cup { << FEntry(h3, "/e3", FileBody(f, 3)) >> : h3 \in HL3 } }
             : f \in fmts }
+\* small files (1-2 entries with distinctive bodies of different length and an own header each) handed out again and
+\* again to n instances that acquire first and shoot then; "jsonarray" = an http/json file that is one JSON array
+ReuseEntries == << FEntry(<< [n |-> "X-A", v |-> "ea"] >>, "/e1", "alpha-body-0123456789"),
+                   FEntry(<< [n |-> "X-A", v |-> "ea2"] >>, "/e2", "b2") >>
+ReuseCases(fmts, ns) ==
+    { [kind |-> "file", fmt |-> f, ssl |-> FALSE, preload |-> p, opts |-> <<>>, entries |-> SubSeq(ReuseEntries, 1, m),
+       n |-> n, rounds |-> 3] : f \in fmts, p \in BOOLEAN, m \in 1..2, n \in ns }
+ReuseQuick == ReuseCases({"uripost", "raw", "json", "jsonarray"}, {2, 4})
+ReuseBig   == ReuseCases({"uripost", "raw", "json", "jsonarray"}, {2, 3, 4})
+
 FilesQuick == FileCases(AllFormats, OnlyOff)
 FilesBig   == FileCases(AllFormats, Both)
 NoFiles    == {}
